@@ -390,7 +390,8 @@ class Schema(dict, metaclass=LogicalMeta):
                 )
             super().__delitem__(field.name)
 
-        if field.name in self.__dict__:
+        if field.attname in self.__dict__:
+            # do not leave the value readable as an attribute
             self.__dict__.pop(field.attname)
 
     def __delitem__(self, key: str):
@@ -409,6 +410,11 @@ class Schema(dict, metaclass=LogicalMeta):
             raise exc.DeleteError(
                 f"{self.__name__}: Attempt to popitem in immutable schema"
             )
+        if self:
+            key = list(self)[-1]
+            if self.__parser__.get_field(key):
+                # a declared field: the rules of pop() apply (immutable / required)
+                return key, self.pop(key)
         return super().popitem()
 
     def pop(self, key: str, default=unprovided):
@@ -429,7 +435,10 @@ class Schema(dict, metaclass=LogicalMeta):
                 f"{self.__name__}: Attempt to delete required schema key: {repr(key)}"
             )
         args = () if unprovided(default) else (default,)
-        return super().pop(field.name, *args)
+        value = super().pop(field.name, *args)
+        # do not leave the value readable as an attribute
+        self.__dict__.pop(field.attname, None)
+        return value
 
     def update(self, __m=None, **kwargs):
         if self.__options__.immutable:
